@@ -27,7 +27,7 @@ FUNCTIONS = ['pymeeus/Moon.py:PERIODIC_TERMS_LR_TABLE', 'pymeeus/Moon.py:PERIODI
              'pymeeus/Angle.py:Angle.dms2deg', 'pymeeus/Angle.py:Angle.reduce_dms', 'pymeeus/Angle.py:Angle.__add__',
              'pymeeus/Angle.py:Angle.__sub__', 'pymeeus/Angle.py:Angle.__rsub__', 'pymeeus/Angle.py:Angle.__neg__',
              'pymeeus/Coordinates.py:ecliptical2equatorial', 'pymeeus/Epoch.py:Epoch.get_full_date',
-             'pymeeus/Epoch.py:Epoch.get_doy', 'pymeeus/Epoch.py:Epoch.get_date', 'pymeeus/Epoch.py:Epoch.is_leap',
+             'pymeeus/Epoch.py:Epoch.get_date', 'pymeeus/Epoch.py:Epoch.jde',
              'pymeeus/Coordinates.py:nutation_longitude', 'pymeeus/Coordinates.py:nutation_obliquity',
              'pymeeus/Coordinates.py:mean_obliquity', 'pymeeus/Coordinates.py:true_obliquity',
              'pymeeus/Sun.py:Sun.apparent_rightascension_declination_coarse']
@@ -35,41 +35,36 @@ FUNCTIONS = ['pymeeus/Moon.py:PERIODIC_TERMS_LR_TABLE', 'pymeeus/Moon.py:PERIODI
 MANIFEST = dict(
     text=("PARTIAL. Lean 4 theorems (Props/C15.lean) about the real-number model of pymeeus/Moon.py whose tables "
           "47.A/47.B and all 450 periodic terms of the finders are regenerated from the source by tools/gen_moon.py "
-          "on every run, composed with the calendar models of C01/C16 so that the four finders are functions of the "
-          "query JDE: parallax = asin(6378.14/distance) with the argument in (0,1) because the amplitude sum of "
+          "on every run: parallax = asin(6378.14/distance) with the argument in (0,1) because the amplitude sum of "
           "table 47.A keeps the distance above 355 000 km; illuminated fraction in [0,1]; mean node / perigee "
           "polynomials advance at -1934.136 / +4069.014 deg per century within 0.29 / 1.42; for the four finders "
-          "and every target string: the count k is monotone in the fractional year and skips no integer, |periodic "
-          "correction| <= the sum of the generated amplitudes, consecutive results are one mean period apart within "
-          "twice that sum and strictly increasing, any other target string raises ValueError; in terms of the query "
-          "JDE (years -2000..4000): results never move backwards for queries of one calendar year or at least 1/365 "
-          "day apart, and result - query lies in an explicit window of days (P/2 + amplitude sum + the calendar step "
-          "between the fractional year and the JDE: offset at 2000, 0.0066 d per Gregorian year, the 10 days of "
-          "1582), e.g. at most 58.9 d for 'last'. Two clauses are FALSE of the current code and proved so / listed: "
-          "'never backwards' (counterexample theorem at 1727-12-31 23:58 / 1728-01-01 00:00, node finder) and "
-          "'within 1.6 months' (last quarter, full moon, descending node in late years). NOT proved (no certified "
-          "interval arithmetic for long trigonometric sums; triangle-inequality bounds are 355 000-415 000 km and "
-          "6.1 deg): distance 356 000-407 000 km, |latitude| <= 5.35 deg, longitude rate, fraction vs geometry, the "
-          "secular rates after the Angle reduction and of the true node, agreement of the finders with the position "
-          "theory. These clauses are evaluated on the implementation only (predicates (I)), sweeping every calendar "
-          "day of sample years of both calendars incl. 29 February of Julian century years and the minutes around "
-          "every year end. The model is tied to /repo by the bit-exact binary64 run of the whole chain from the JDE."),
+          "(functions of the query JDE: k = round((jde - J0)/P) plus quarter/half offsets) and every target string, "
+          "for all queries of the years -2000..4000: the count is monotone in the query and skips no integer, "
+          "|periodic correction| <= the sum of the generated amplitudes, results NEVER move backwards as the query "
+          "advances, consecutive results are one mean period apart within twice that sum and strictly increasing, "
+          "the result is within P/2 + amplitude sum of the query (+ P x offset) and hence WITHIN 1.6 MONTHS of it "
+          "(at most 38.1 / 31.7 / 28.5 / 15.8 days), any other target string raises ValueError. NOT proved (no "
+          "certified interval arithmetic for long trigonometric sums; triangle-inequality bounds are 355 000-415 000 "
+          "km and 6.1 deg): distance 356 000-407 000 km, |latitude| <= 5.35 deg, longitude rate, fraction vs "
+          "geometry, the secular rates after the Angle reduction and of the true node, agreement of the finders with "
+          "the position theory. These clauses are evaluated on the implementation only (predicates (I)), sweeping "
+          "every calendar day of sample years of both calendars incl. 29 February of Julian century years and the "
+          "minutes around every year end. The model is tied to /repo by the bit-exact binary64 run from the JDE."),
     note=("Trusted: Lean kernel, Mathlib, axioms propext/Classical.choice/Quot.sound; the hand-written evaluators and "
-          "control flow of lean/templates/Moon.lean, MoonYear.lean and the translator tools/gen_moon.py, and the "
-          "models they compose (EpochCore/EpochCal calendar functions, Vsop/SunEarth nutation, obliquity and coarse "
-          "Sun), all validated bit for bit against CPython on every run from the query JDE alone; Epoch(jde) is the "
-          "identity in the real model (C02); the real-model finders take a rational JDE (every binary64 is one). "
-          "Idealisation binary64 -> real not verified. Known findings: last-quarter (from about year 2500), full-moon "
-          "(from about 3700) and descending-node (from about 3900) results lie more than 1.6 synodic months after "
-          "the query; the node finder moves 27 days backwards between 1727-12-31 23:57:43 and 1728-01-01 00:01:39."),
+          "control flow of lean/templates/Moon.lean and the translator tools/gen_moon.py, and the models they compose "
+          "(EpochCore get_date/compute_jde for Epoch(jde), Vsop/SunEarth nutation, obliquity and coarse Sun), all "
+          "validated bit for bit against CPython on every run from the query JDE alone; Epoch(jde) is the identity in "
+          "the real model (C02). Idealisation binary64 -> real not verified. The two former findings (results up to "
+          "57 d after the query in late years; the node finder moving 27 d backwards across 1727-12-31/1728-01-01) "
+          "were repaired by taking k from the epoch's JDE (fix: commit); both clauses are now theorems."),
     technique="Lean 4 proof over a generated table/term model + bit-exact model/implementation correspondence + predicates on the implementation",
     ref='6 C15')
 
 TRUSTED = [
     'tools/gen_moon.py (ast translator of the tables and the 450 periodic terms) and the hand-written evaluators of '
     'lean/templates/Moon.lean, MoonYear.lean: validated by the bit-exact correspondence run below',
-    'no value computed by the implementation enters the models any more: the finders are tied from the query JDE '
-    '(get_date, is_leap, get_doy, fractional year, count, series, Epoch(jde)), the apparent positions and the bright '
+    'no value computed by the implementation enters the models: the finders are tied from the query JDE '
+    '(count, series, Epoch(jde)), the apparent positions and the bright '
     'limb from the JDE (nutation_longitude, true_obliquity, coarse Sun are the models of templates Vsop / SunEarth)',
     'the predicates use the library\'s own Sun position (Sun.apparent_geocentric_position, '
     'Sun.geometric_geocentric_position) as the property prescribes',
@@ -167,17 +162,6 @@ def finder_out(finder, target, e):
         j, x = call_finder(finder, target, e)
         return (j,) if x is None else (j, x)
     return run_impl(f)
-
-
-def frac_year(e):
-    """The fractional year exactly as the four finders compute it (Moon.py:673-678)."""
-    Epoch = lib()['Epoch']
-    y, m, d = e.get_date()
-    num_days_year = 365.0
-    if Epoch.is_leap(y):
-        num_days_year = 366.0
-    doy = Epoch.get_doy(y, m, d)
-    return y + doy / num_days_year
 
 
 def moon_dist(j):
@@ -366,8 +350,7 @@ def check_pair(ctx, finder, target, q1, r1, q2, r2, klass):
 
 
 def tie_finder(ctx, finder, target, q, klass):
-    """(S) the whole chain from the query JDE: date, leap rule, day of year, fractional year, count, series,
-    Epoch(jde) renormalisation."""
+    """(S) the whole function from the query JDE: count, series, Epoch(jde) renormalisation."""
     e = ep(q)
     ctx.case(DRIVER_FN[finder], [float(q), target], finder_out(finder, target, e), q=None,
              klass=DRIVER_FN[finder] + '/' + klass)
@@ -434,8 +417,8 @@ YEAR_END_OFFSETS_S = (-236.0, -180.0, -137.0, -90.0, -30.0, -0.001, 0.0, 40.0, 9
 
 
 def sweep_year_ends(ctx, ys, pending, rng):
-    """Queries a few minutes around 31 December 24h: the finders' fractional year y + doy/days is not
-    continuous there (it steps by 1/days(y+1) - 1/days(y)), so this is where the order clause is at risk."""
+    """Queries a few minutes around 31 December 24h: where a count derived from calendar fields (as the finders did
+    before they took it from the JDE) is discontinuous, so this is where the order clause is at risk."""
     Epoch = lib()['Epoch']
     for y in ys:
         j2 = Epoch(y + 1, 1, 1.0)._jde
@@ -456,7 +439,6 @@ def sweep_year_ends(ctx, ys, pending, rng):
         q = rng.choice(qs)
         finder = rng.choice(list(FINDERS))
         pending.append((finder, rng.choice(FINDERS[finder]), q, 'year_end'))
-        ctx.case('moon_fyear', [q], run_impl(lambda: frac_year(ep(q))), q=None, klass='moon_fyear/year_end')
 
 
 JULIAN_CENTURY = [100, 200, 300, 500, 600, 700, 900, 1000, 1100, 1300, 1400, 1500]
@@ -594,7 +576,7 @@ def generate(ctx, shard=0, nshards=1):
     if shard == 0:
         ctx.sample({'call': 'Moon.geocentric_ecliptical_pos(Epoch(1992, 4, 12.0))', 'expected': 'Meeus ex. 47.a: 133.162655, -3.229126, 368409.7 km, 0.99199'})
         ctx.sample({'call': "Moon.moon_phase(Epoch(1977, 2, 15.0), 'new')", 'expected': 'Meeus ex. 49.a: JDE 2443192.65118'})
-        ctx.sample({'call': "Moon.moon_phase(Epoch(4000, 6, 1.0), 'last')", 'expected': 'KNOWN-FINDING: result > 47.25 days after the query'})
+        ctx.sample({'call': "Moon.moon_phase(Epoch(4000, 6, 1.0), 'last')", 'expected': 'within 38.1 days after the query (was 55 d before the fix)'})
 
 
 # ------------------------------------------------------------------ known findings / replay
